@@ -7,6 +7,7 @@ pub mod c06;
 pub mod c07;
 pub mod c09;
 pub mod c10;
+pub mod c13;
 pub mod c17;
 pub mod c18;
 
@@ -19,6 +20,7 @@ pub fn dispatch(env: &Env) -> i32 {
         "C07" => c07::run(env),
         "C09" => c09::run(env),
         "C10" => c10::run(env),
+        "C13" => c13::run(env),
         "C17" => c17::run(env),
         "C18" => c18::run(env),
         other => {
